@@ -112,7 +112,7 @@ def run(ctx, replay=None):
     try:
         nv = 120 if not ctx.thorough() else 1200
         nd = 180 if not ctx.thorough() else 1800
-        cases = [replay['case']] if replay and replay.get('case') else None
+        cases = [replay['case']] if replay and replay.get('case') and not replay['case'].get('setter') else None
         # ---- stream 1: through Variogram
         vcases = cases if cases is not None else [c for c in vc.corpus_cases('C02')] + vc.gen_cases(ctx, nv, nmax=28)
         for case in vcases:
@@ -201,19 +201,34 @@ def run(ctx, replay=None):
             first = rng.choice([None, 0.5, 0.25, 'median'])     # never an absolute value: that would truncate the distance data itself
             case = {'setter': True, 'coords': c.tolist(), 'values': v.tolist(), 'method': method, 'n': n, 'first': first, 'maxlag': ml,
                     'as_metricspace': rng.random() < 0.5}
+            change_metric = (not case['as_metricspace']) and rng.random() < 0.5
+            if change_metric and rng.random() < 0.5:
+                case['first'] = first = None          # maxlag left unset: the edges follow the largest distance of the new metric
             ctx.count('setter_maxlag', repr(ml))
             try:
                 src = MetricSpace(c.copy(), 'euclidean') if case['as_metricspace'] else c
                 V = Variogram(src, v, bin_func=method, n_lags=n, maxlag=first if not (case['as_metricspace'] and isinstance(first, float) and first >= 1) else None, fit_method=None)
                 _ = V.bins, V.n_lags
-                V.maxlag = ml
+                metric2 = None
+                if change_metric:
+                    # the edges must follow a change of the metric as well
+                    metric2 = rng.choice(['cityblock', 'chebyshev'])
+                    V.dist_function = metric2
+                    case['metric2'] = metric2
+                    if rng.random() < 0.6:
+                        ml = V._maxlag_passed_value if hasattr(V, '_maxlag_passed_value') else first
+                        case['maxlag'] = ml
+                    else:
+                        V.maxlag = ml
+                else:
+                    V.maxlag = ml
                 edges = np.asarray(V.bins, dtype=float)
                 nl, Mres, D = V.n_lags, V.maxlag, np.asarray(V.distance, dtype=float)
             except Exception as e:
                 ctx.count('setter_rejected', type(e).__name__)
                 ctx.case_done(case, False)
                 continue
-            d_true = pdist(c, 'euclidean')
+            d_true = pdist(c, case.get('metric2') or 'euclidean')
             mres = model('resolve_maxlag', wire_form(ml), D.tolist())
             if (mres is None) != (Mres is None) or (mres is not None and not gen.close(float(mres), float(Mres), 1e-11)):
                 ctx.problem('correspondence', 'maxlag assigned in place resolves differently from Binning.resolve_maxlag', case,
